@@ -179,6 +179,7 @@ func runStressB(t *testing.T, p *Plan) *Outcome {
 							// only a violation if the trace was first seen under stress on this node
 							if traceFirstSeenStressed(evs, se) {
 								out.Violate("C16", "stressed_trace_buffered", site, "event %s arrived at stressed node n%d for a trace first seen under stress, but the trace is in the node's buffer", se.ev.marker, se.entry)
+								out.Violate("C19", "event_took_two_paths", site, "event %s arrived at stressed node n%d and was decided by the stress rule, yet it was also handed to the node's collector (its trace is in the buffer)", se.ev.marker, se.entry)
 							}
 						}
 					}
@@ -271,6 +272,9 @@ func runStressB(t *testing.T, p *Plan) *Outcome {
 							where = fmt.Sprintf("%s -> %s (probe=%v)", d.from, d.to, d.probe)
 						}
 						out.Violate("C16", "kept_stressed_span_not_delivered_exactly_once", site, "%s: kept by the stress rule (rate %d) but reached Honeycomb %d times; peer deliveries: %s", desc, rate, len(hs), where)
+						if len(hs) > 1 {
+							out.Violate("C19", "event_handled_more_than_once", site, "%s: sent by the stress rule, and reached Honeycomb %d times", desc, len(hs))
+						}
 						continue
 					}
 					h := hs[0]
@@ -317,6 +321,7 @@ func runStressB(t *testing.T, p *Plan) *Outcome {
 			}
 			if len(hs) > 1 {
 				out.Violate("C16", "span_delivered_twice", site, "%s reached Honeycomb %d times", desc, len(hs))
+				out.Violate("C19", "event_handled_more_than_once", site, "%s reached Honeycomb %d times", desc, len(hs))
 			}
 		}
 		var log []string
